@@ -1,31 +1,41 @@
 """Correspondence of Model/DictAssign.v with the code: `assert {new dict} == snapshot({hand-written dict display})` with a
-subset of {fix, update}; the entries of the rewritten display in text order vs the model in Coq."""
+subset of {fix, update}; the values of the display are leaves or nested lists / tuples (hand-written leaves like `2+3`,
+user-controlled `Is(Vk)` parts); the entries of the rewritten display in TEXT ORDER (key, nesting, leaf values, which leaves
+keep a hand-written text) vs the model in Coq."""
 from __future__ import annotations
 
 import ast
 
 from . import driver
-from .core import g_Z, g_bool, g_list
-from .snapgen import g_flags, render_atom
+from . import treeassign as ta
+from .core import g_Z, g_list
+from .snapgen import g_flags
 
-HDR = "from inline_snapshot import snapshot\n\n\n"
+HDR = "from inline_snapshot import snapshot, Is\n\n\n"
+UNM_CHOICES = [[0, 0, 0.25]]
 
 
 def gen_case(rng):
     n = rng.choice([0, 1, 2, 3, 3, 4, 5])
     keys = rng.sample(range(10), n)
-    olds = [(k, rng.randint(0, 5), rng.random() < 0.5) for k in keys]
-    news = [(k, v) for k, v, _ in olds]
+    ids = []
+    saved = ta.UNM[0]
+    ta.UNM[0] = rng.choice(UNM_CHOICES[0])
+    try:
+        olds = [(k, ta.gen_tree(rng, 1 if rng.random() < 0.45 else 3, ids)) for k in keys]
+    finally:
+        ta.UNM[0] = saved
+    news = [(k, ta.tree_value(t)) for k, t in olds]
     for _ in range(rng.choice([0, 1, 1, 2, 3])):
         r = rng.random()
         if r < 0.3 and news:
             del news[rng.randrange(len(news))]
         elif r < 0.6:
             k = rng.choice([x for x in range(12) if x not in [a for a, _ in news]])
-            news.insert(rng.randint(0, len(news)), (k, rng.randint(0, 5)))
+            news.insert(rng.randint(0, len(news)), (k, ta.gen_val(rng, 1)))
         elif r < 0.8 and news:
             i = rng.randrange(len(news))
-            news[i] = (news[i][0], rng.randint(0, 5))
+            news[i] = (news[i][0], ta.mutate(rng, news[i][1]))
         elif len(news) >= 2:
             i, j = rng.sample(range(len(news)), 2)
             news[i], news[j] = news[j], news[i]
@@ -34,48 +44,173 @@ def gen_case(rng):
 
 
 def render_old(c):
-    return "{" + ", ".join(f"{k}: {render_atom(v, cn)}" for k, v, cn in c["olds"]) + "}"
+    return "{" + ", ".join(f"{k}: {ta.render_tree(t)}" for k, t in c["olds"]) + "}"
+
+
+def unms(c):
+    return [u for _, t in c["olds"] for u in ta.unms(t)]
+
+
+def program(c, flags=None):
+    vs = "".join(f"V{i} = {v}\n" for i, v in unms(c))
+    new = "{" + ", ".join(f"{k}: {v!r}" for k, v in c["news"]) + "}"
+    return HDR + vs + f"\n\ndef test_a():\n    assert {new} == snapshot({render_old(c)})\n"
+
+
+def read_arg(after):
+    tree = ast.parse(after)
+    f = [n for n in tree.body if isinstance(n, ast.FunctionDef)][0]
+    call = [n for n in ast.walk(f) if isinstance(n, ast.Call) and isinstance(n.func, ast.Name) and n.func.id == "snapshot"][0]
+    return call.args[0]
 
 
 def run_case(c):
-    new = "{" + ", ".join(f"{k}: {v}" for k, v in c["news"]) + "}"
-    src = HDR + f"def test_a():\n    assert {new} == snapshot({render_old(c)})\n"
+    src = program(c)
     r = driver.run_inproc({"test_a.py": src}, c["flags"], block_black=True)
     out = {"session_exc": r["session_exc"], "source": src, "after": r["files"]["test_a.py"].decode()}
     try:
-        tree = ast.parse(out["after"])
-        f = [n for n in tree.body if isinstance(n, ast.FunctionDef)][0]
-        call = [n for n in ast.walk(f) if isinstance(n, ast.Call) and isinstance(n.func, ast.Name) and n.func.id == "snapshot"][0]
-        arg = call.args[0]
+        arg = read_arg(out["after"])
         out["arg"] = ast.get_source_segment(out["after"], arg)
-        obs = []
-        for kn, vn in zip(arg.keys, arg.values):
-            vs = ast.get_source_segment(out["after"], vn)
-            v = eval(vs)
-            obs.append((ast.literal_eval(kn), v, vs == repr(v)))
-        out["observed"] = obs
+        if not isinstance(arg, ast.Dict):
+            raise ValueError("the argument is no longer a dict display")
+        out["observed"] = [(ast.literal_eval(kn), ta.read_back(ast.get_source_segment(out["after"], vn))) for kn, vn in zip(arg.keys, arg.values)]
+        ns = {"Is": lambda x: x}
+        ns.update({f"V{i}": v for i, v in unms(c)})
+        out["value"] = eval(out["arg"], ns)
     except Exception as e:  # noqa
         out["error"] = f"{type(e).__name__}: {e}"
     return out
 
 
 def g_case(c, o):
-    tr = lambda t: f"({g_Z(t[0])}, {g_Z(t[1])}, {g_bool(t[2])})"  # noqa
-    return f"({g_flags(c['flags'])}, {g_list(c['olds'], tr)}, {g_list(c['news'], lambda t: f'({g_Z(t[0])}, {g_Z(t[1])})')}, {g_list(o['observed'], tr)})"
+    return (f"({g_flags(c['flags'])}, {g_list(c['olds'], lambda t: f'({g_Z(t[0])}, {ta.g_tree(t[1])})')}, "
+            f"{g_list(c['news'], lambda t: f'({g_Z(t[0])}, {ta.g_val(t[1])})')}, {g_list(o['observed'], lambda t: f'({g_Z(t[0])}, {ta.g_otree(t[1])})')})")
+
+
+def _same(a, b):
+    return a == b and type(a) is type(b) and (not isinstance(a, (list, tuple)) or all(_same(x, y) for x, y in zip(a, b)))
+
+
+def _shape(t):
+    if t[0] == "leaf":
+        return t
+    if t[0] == "unm":
+        return ("unm", t[1])
+    return (t[0], [_shape(x) for x in t[1]])
 
 
 def oracle(c, o):
-    """C02 / C11 on a flat dict, stated without the model"""
-    got = {k: v for k, v, _ in o["observed"]}
-    old = {k: v for k, v, _ in c["olds"]}
+    """C02 / C10 / C11 on a dict display, stated without the model"""
+    us = [i for i, _ in unms(c)]
+    got_u = [u[1] for _, t in o["observed"] for u in ta._unm_list(t)]
+    it = iter(us)
+    if not all(g in it for g in got_u):
+        return f"C10: user-controlled parts after the run {got_u} are not a subsequence of the ones before {us}: {render_old(c)} -> {o['arg']}"
+    if "fix" not in c["flags"] and got_u != us:
+        return f"C10: fix is not approved but user-controlled parts disappeared: {us} -> {got_u}"
+    if us:
+        return None
+    got = o["value"]
+    old = {k: ta.tree_value(t) for k, t in c["olds"]}
     new = dict(c["news"])
-    if "fix" in c["flags"] and got != new:
+    keys = [k for k, _ in o["observed"]]
+    if len(set(keys)) != len(keys):
+        return f"a key is repeated: {o['arg']}"
+    if "fix" in c["flags"] and not (got == new and all(_same(got[k], new[k]) for k in new)):
         return f"after fix the snapshot holds {got}, observed was {new}"
     if "fix" not in c["flags"] and got != old:
         return f"without fix the value changed from {old} to {got}"
     if "update" not in c["flags"]:
-        texts = {k: cn for k, _, cn in o["observed"]}
-        for k, v, cn in c["olds"]:
-            if k in new and new[k] == v and k in texts and texts[k] != cn:
-                return f"entry {k}: {render_atom(v, cn)} is unchanged (same key, equal value) but its text was rewritten: {render_old(c)} -> {o['arg']}"
+        texts = dict(o["observed"])
+        for k, t in c["olds"]:
+            if k in new and _same(new[k], ta.tree_value(t)) and k in texts and ta.g_otree(texts[k]) != ta.g_otree(_shape(t)):
+                return f"entry {k}: {ta.render_tree(t)} is unchanged (same key, equal value) but its text was rewritten: {render_old(c)} -> {o['arg']}"
     return None
+
+
+def run_orders(c):
+    """C09 on a dict display: fix and update approved together vs one after the other (both orders)"""
+    src = program(c)
+    out = {"source": src, "routes": {}}
+    for name, seq in (("fix,update", [("fix", "update")]), ("update;fix", [("update",), ("fix",)]), ("fix;update", [("fix",), ("update",)])):
+        cur = src
+        try:
+            for flags in seq:
+                r = driver.run_inproc({"test_a.py": cur}, flags, block_black=True)
+                if r["session_exc"]:
+                    raise RuntimeError(r["session_exc"])
+                cur = r["files"]["test_a.py"].decode()
+            arg = read_arg(cur)
+            out["routes"][name] = (ast.dump(arg), ast.get_source_segment(cur, arg))
+        except Exception as e:  # noqa
+            out["routes"][name] = ("error", f"{type(e).__name__}: {e}")
+    return out
+
+
+def orders_oracle(c, o):
+    ref = o["routes"]["fix,update"]
+    for name, got in o["routes"].items():
+        if got[0] == "error":
+            return f"route {name} failed: {got[1]}"
+        if got[0] != ref[0]:
+            return f"{render_old(c)} observed {c['news']}: approving fix and update together gives {ref[1]}, the route {name} gives {got[1]}"
+    return None
+
+
+def check_part(ctx, n, label, orders=0):
+    from .core import coq_eval_shards, pmap
+    cases = [gen_case(ctx.rng) for _ in range(n)]
+    outs = pmap(run_case, cases, chunksize=8)
+    terms, idx = [], []
+    nunm = 0
+    for i, (c, o) in enumerate(zip(cases, outs)):
+        ctx.count(("dict", repr(c)), [(k, ta.tree_value(t)) for k, t in c["olds"]] != c["news"])
+        if o["session_exc"] or "error" in o:
+            ctx.report(f"{label} (dict display): run failed: {o['session_exc'] or o.get('error')}: {render_old(c)} observed {c['news']} flags {c['flags']}",
+                       {"kind": "dict", "case": c, "repr": repr(c)})
+            continue
+        nunm += bool(unms(c))
+        why = oracle(c, o)
+        if why:
+            ctx.report(f"{label} oracle (dict display): " + why, {"kind": "dict", "case": c, "repr": repr(c)})
+            continue
+        terms.append(g_case(c, o))
+        idx.append(i)
+    bad = coq_eval_shards(ctx, "dictassign", "Model.SnapOps Model.TreeAssign Model.DictAssign Corr.TreeAssignCorr Corr.DictAssignCorr", "case", terms, "mismatches")
+    ctx.coverage["traces_validated_against_impl"] += len(terms)
+    ctx.coverage["correspondence"]["dict_assign"] = {"cases": len(terms), "mismatches": len(bad), "with_user_controlled_parts": nunm}
+    for j in bad[:10]:
+        c, o = cases[idx[j]], outs[idx[j]]
+        ctx.report(f"Model/DictAssign.v and implementation differ (oracle silent): {render_old(c)} observed {c['news']} flags {c['flags']} -> {o['arg']}",
+                   {"kind": "dict", "case": c, "repr": repr(c)}, no_input=True, kind="correspondence")
+    if orders:
+        saved = UNM_CHOICES[0]
+        UNM_CHOICES[0] = [0]
+        try:
+            oc = [gen_case(ctx.rng) for _ in range(orders)]
+        finally:
+            UNM_CHOICES[0] = saved
+        for c, o in zip(oc, pmap(run_orders, oc, chunksize=4)):
+            ctx.count(("dict-orders", repr(c)), True)
+            why = orders_oracle(c, o)
+            if why:
+                ctx.report(f"{label} oracle (dict display): " + why, {"kind": "dict-orders", "case": c, "repr": repr(c)})
+        ctx.coverage["oracle"]["dict_display_routes"] = orders
+
+
+def replay_case(case):
+    c = eval(case["repr"])
+    if case.get("kind") == "dict-orders":
+        o = run_orders(c)
+        for k, v in o["routes"].items():
+            print(k, "->", v[1])
+        why = orders_oracle(c, o)
+        print("oracle:", why)
+        return why is None
+    o = run_case(c)
+    print(render_old(c), "observed", c["news"], "flags", c["flags"], "->", o.get("arg"), o.get("error"), o.get("session_exc"))
+    if o["session_exc"] or "error" in o:
+        return False
+    why = oracle(c, o)
+    print("oracle:", why)
+    return why is None
